@@ -3,7 +3,7 @@
    Proofs: proofs/FormatSteps.v (element() cut into blocks), proofs/FormatChunks.v (chunk view of
    the stream), proofs/FormatCosmetic.v, proofs/FormatProofs.v. *)
 From Emmet Require Import lib.Base model.MarkupConvert model.OutStream model.FormatHtml
-     proofs.FormatSteps proofs.FormatProofs proofs.FormatChunks proofs.FormatTabstops proofs.FormatCosmetic.
+     proofs.FormatSteps proofs.FormatProofs proofs.FormatChunks proofs.FormatTabstops proofs.FormatCosmetic proofs.FormatDepth.
 
 (* SPEC.
    fchunks st      the callback invocations of a run, positions erased: CT text | CF index placeholder
@@ -56,6 +56,81 @@ Theorem selfclose_local_partial c s1 s2 children :
   RelS c s1 s2 (content (html_format (with_style s1 c) children)) (content (html_format (with_style s2 c) children)).
 Proof. exact (fun Hf Hc => selfclose_local_lemma c s1 s2 Hf Hc children). Qed.
 Print Assumptions selfclose_local_partial.
+
+(* indent_is_depth.  Full statement: with formatting on and no element exempted through formatSkip,
+   every line after the first starts with baseIndent plus one indent unit per element open at that
+   point; a closing tag on its own line is aligned with its opening tag.
+   nl_chunk f          the chunk of a line break: output.newline ++ output.baseIndent
+   indent_chunk f k    the chunk that follows it: k copies of output.indent
+   nl_chunks f L ind   a line break as the stream writes it: nl_chunk, then indent_chunk of L units
+                       (ind = Some None), of n units (ind = Some (Some n)), or nothing (ind = None; int_ind 0 = None)
+   get_indent c (Some a) = 1 iff a indents its content: a named element not listed in formatSkip
+                       (lemmas get_indent_element / get_indent_text); 0 for text nodes and at top level
+   visits c st0 top p n i items s L
+                       in the walk of the forest [top] from stream state st0, element() is invoked for node n
+                       (parent p, position i among items) at stream state s; L = sum of get_indent over the
+                       enclosing nodes including p = number of open elements that indent their content
+   entry c p n i items s   the state after element() has raised the level and made the node's own line break
+   The definition of [visits] is certified by children_walk_starts_at: element() runs the walk over the
+   children exactly once, from [pre_children], whatever the tree and the options.
+   _partial: proved are (a) the level at every invocation of element() = number of enclosing indenting
+   elements (level_is_depth), hence (b) the own line break of EVERY formatted element carries exactly L
+   units (indent_is_depth_partial), (c) the closing line break after the last formatted child carries L - 1
+   units = the units of the parent's own line (close_aligned_partial), (d) the lines of a multi-line value
+   and the caret line of an empty leaf carry L + 1 units, the line break before the closing tag L units
+   (value_lines_indent, leaf_lines_indent).  Missing: these are statements per invocation of element(), not
+   one statement quantified over every line-break chunk of the final chunk list (that needs the open-
+   element count read off the output, ambiguous for html-style self-closed tags); line breaks written
+   while a value is wrapped around children (push_snippet path) are not covered and deviate on the code
+   (known finding C12:depth-multiline-field-text-with-children). *)
+Theorem level_is_depth c st0 top p n i items s L :
+  visits c st0 top p n i items s L -> (lvl s + get_indent c p = lvl st0 + L)%Z.
+Proof. exact (level_is_depth_lemma c st0 top p n i items s L). Qed.
+Print Assumptions level_is_depth.
+
+Theorem children_walk_starts_at c parent node index items st :
+  html_element c parent node index items st =
+  html_element_step c parent node index items
+    (fun _ => html_walk c (Some node) (an_children node) O (an_children node) (pre_children c parent node index items st)) st.
+Proof. exact (children_start c parent node index items st). Qed.
+Print Assumptions children_walk_starts_at.
+
+Theorem indent_is_depth_partial c st0 top p n i items s L :
+  visits c st0 top p n i items s L -> lvl st0 = 0%Z ->
+  should_format c p n i items = true ->
+  fchunks (entry c p n i items s) = fchunks s ++ [nl_chunk (oc_fmt c); indent_chunk (oc_fmt c) L].
+Proof. exact (indent_is_depth_lemma c st0 top p n i items s L). Qed.
+Print Assumptions indent_is_depth_partial.
+
+Theorem close_aligned_partial c st0 top p n i items s L :
+  visits c st0 top p n i items s L -> lvl st0 = 0%Z ->
+  tail_newline c (should_format c p n i items) p i items = true ->
+  fchunks (html_element c p n i items s) =
+  fchunks (el_body c n (html_children c n) (entry c p n i items s))
+  ++ nl_chunks (oc_fmt c) L (int_ind (L - (if is_snippet_opt p then 0 else 1))%Z).
+Proof. exact (close_aligned_lemma c st0 top p n i items s L). Qed.
+Print Assumptions close_aligned_partial.
+
+Theorem value_lines_indent c node st v0 value :
+  an_value node = Some (v0 :: value) ->
+  existsb has_newline (v0 :: value) || starts_with_block_tag c (v0 :: value) = true ->
+  an_children node = [] ->
+  fchunks (el_value c node st) =
+  fchunks st ++ nl_chunks (oc_fmt c) (lvl st + 1) (int_ind (lvl st + 1))
+             ++ token_chunks (oc_fmt c) (lvl st + 1) (fs_field st) (v0 :: value)
+             ++ nl_chunks (oc_fmt c) (lvl st) (int_ind (lvl st)).
+Proof. exact (value_chunks c node st v0 value). Qed.
+Print Assumptions value_lines_indent.
+
+Theorem leaf_lines_indent c nm node st :
+  negb (truthy_l (an_value node)) && match an_children node with [] => true | _ => false end = true ->
+  oc_format_leaf c || mem_str nm (oc_format_force c) = true ->
+  fchunks (el_leaf c nm node st) =
+  fchunks st ++ nl_chunks (oc_fmt c) (lvl st + 1) (int_ind (lvl st + 1))
+             ++ [CF (fs_field st) []]
+             ++ nl_chunks (oc_fmt c) (lvl st) (int_ind (lvl st)).
+Proof. exact (leaf_chunks c nm node st). Qed.
+Print Assumptions leaf_lines_indent.
 
 (* level_restored: the indentation level (the number of indent units a line break made now
    would be followed by) is the same after an element as before it, for ALL trees, sibling
@@ -111,3 +186,22 @@ Example comments_nonvacuous :
   length (content (html_format (with_comment true c) t)) = 12 /\
   length (content (html_format (with_comment false c) t)) = 8.
 Proof. cbv zeta. split; [repeat constructor|]. vm_compute. split; reflexivity. Qed.
+
+(* Non-vacuity of the depth theorems: in <div><p>hi</p><span ...> x</span></div> the node <p> is
+   visited at L = 1, is formatted, and its own line break carries one indent unit. *)
+Example depth_nonvacuous :
+  let st0 := mkFs os_empty 1 in
+  let d := ANode (Some [100;105;118]%N) None None None
+     [ANode (Some [112]%N) (Some [VStr [104;105]%N]) None None [] false;
+      ANode (Some [115;112;97;110]%N) (Some [VStr [32;120]%N]) None
+            (Some [mkAAttr (Some [116]%N) (Some [VField 1 []]) VRaw false false false]) [] false] false in
+  let p := ANode (Some [112]%N) (Some [VStr [104;105]%N]) None None [] false in
+  ex_tree = [d] /\
+  (exists s, visits ex_c1 st0 [d] (Some d) p 0 (an_children d) s (0 + get_indent ex_c1 (Some d))%Z) /\
+  (0 + get_indent ex_c1 (Some d) = 1)%Z /\
+  should_format ex_c1 (Some d) p 0 (an_children d) = true /\
+  indent_chunk (oc_fmt ex_c1) 1 = CT false [9%N].
+Proof.
+  cbv zeta. split; [reflexivity|]. split; [|split; [reflexivity|split; [vm_compute; reflexivity|reflexivity]]].
+  eexists. eapply v_child; [apply (v_top _ _ _ 0); reflexivity|reflexivity].
+Qed.
